@@ -50,4 +50,32 @@ var specs = []CheckSpec{
 		Assumptions: commonAssumptions,
 		Outside:     []string{"bodies longer than the bound"},
 	},
+	{
+		ID: "C08", Pkg: "diff",
+		Harnesses: []HarnessSpec{
+			{Fn: "VerifC08Small", Quick: map[string]int{"P": 3, "Q": 3}, Thorough: map[string]int{"P": 4, "Q": 4}, Witness: []string{"identical", "hunks-parsed"}, Native: true},
+			{Fn: "VerifC08Anchored", Quick: map[string]int{"MLO": 7, "M": 7, "S": 1}, Thorough: map[string]int{"MLO": 6, "M": 9, "S": 1}, Witness: []string{"multi-hunk", "hunks-parsed"}, Native: true},
+		},
+		Bounds: map[string]string{
+			"quick":    "all pairs of texts with <= 3 lines per side, each line one arbitrary byte (all equality patterns, with/without final newline per side); templates with 7 common anchor lines and <= 1 arbitrary line before/after on each side (multi-hunk output)",
+			"thorough": "<= 4 lines per side; 6..9 anchor lines",
+		},
+		Assumptions: append([]string{"lines are opaque to the algorithm (only equality and concatenation of whole lines): one symbolic byte per line stands for arbitrary line contents"}, commonAssumptions...),
+		Outside:     []string{"longer texts", "multi-byte line contents (spot-checked by the native suite only)", "decimal rendering inside fmt (concrete integers are rendered by the native fmt)"},
+	},
+	{
+		ID: "C19", Pkg: "imports",
+		Harnesses: []HarnessSpec{
+			{Fn: "VerifC19Terms", Quick: map[string]int{"O": 2, "T": 2, "V": 2}, Thorough: map[string]int{"O": 2, "T": 2, "V": 6}, Witness: []string{"evaluated"}, Native: true},
+			{Fn: "VerifC19TermsWide", Quick: map[string]int{"O": 1, "T": 2, "V": 8}, Thorough: map[string]int{"O": 1, "T": 3, "V": 8}, Witness: []string{"evaluated"}, Native: true},
+			{Fn: "VerifC19Block", Quick: map[string]int{"I": 2}, Thorough: map[string]int{"I": 3}, Witness: []string{"effective-build-line", "ineffective-build-line"}, Native: true},
+			{Fn: "VerifC19MatchFile", Quick: map[string]int{"S": 3}, Thorough: map[string]int{"S": 4}, Witness: []string{"matched"}, Native: true},
+		},
+		Bounds: map[string]string{
+			"quick":    "+build lines with <= 2 options x <= 2 terms over {foo,linux} x {'', !, !!} and 1 option x <= 2 terms over the full vocabulary {foo,linux,android,ignore,a-b,'',bar,386}; leading blocks of <= 2 items (+build / other comment / blank, three spellings) + optional blank + three file tails; file names of <= 3 segments over 9 tokens x 3 suffix forms; every tag set over the vocabulary (symbolic booleans)",
+			"thorough": "terms over 6 tags with 2x2 shape, 1x3 over 8; blocks of <= 3 items; file names of <= 4 segments",
+		},
+		Assumptions: append([]string{"the reference evaluator in the harness is written from the property text (OR of options, AND of terms, !, !! and malformed false, android selects linux, * accepts all but ignore)"}, commonAssumptions...),
+		Outside:     []string{"tag names outside the vocabulary (Unicode letters)", "more than 3 leading items"},
+	},
 }
